@@ -15,6 +15,7 @@ limitations under the License.
 ================================================================================
 */
 
+#include <exception>    // std::rethrow_exception, std::current_exception
 #include <memory>       // std::make_shared
 #include <sstream>      // std::ostringstream
 #include <string>       // std::string
@@ -88,22 +89,28 @@ template <bool NoneIsLeaf>
             throw py::value_error("PyTree type " + PyRepr(cls) +
                                   " is already registered in the global namespace.");
         }
+        int warn_result = 0;
         if (IsStructSequenceClass(cls)) [[unlikely]] {
-            PyErr_WarnEx(PyExc_UserWarning,
-                         ("PyTree type " + PyRepr(cls) +
-                          " is a class of `PyStructSequence`, "
-                          "which is already registered in the global namespace. "
-                          "Override it with custom flatten/unflatten functions.")
-                             .c_str(),
-                         /*stack_level=*/2);
+            warn_result = PyErr_WarnEx(PyExc_UserWarning,
+                                       ("PyTree type " + PyRepr(cls) +
+                                        " is a class of `PyStructSequence`, "
+                                        "which is already registered in the global namespace. "
+                                        "Override it with custom flatten/unflatten functions.")
+                                           .c_str(),
+                                       /*stack_level=*/2);
         } else if (IsNamedTupleClass(cls)) [[unlikely]] {
-            PyErr_WarnEx(PyExc_UserWarning,
-                         ("PyTree type " + PyRepr(cls) +
-                          " is a subclass of `collections.namedtuple`, "
-                          "which is already registered in the global namespace. "
-                          "Override it with custom flatten/unflatten functions.")
-                             .c_str(),
-                         /*stack_level=*/2);
+            warn_result = PyErr_WarnEx(PyExc_UserWarning,
+                                       ("PyTree type " + PyRepr(cls) +
+                                        " is a subclass of `collections.namedtuple`, "
+                                        "which is already registered in the global namespace. "
+                                        "Override it with custom flatten/unflatten functions.")
+                                           .c_str(),
+                                       /*stack_level=*/2);
+        }
+        if (warn_result < 0) [[unlikely]] {
+            // The warning was turned into an exception: undo the registration.
+            registry->m_registrations.erase(cls);
+            throw py::error_already_set();
         }
     } else [[likely]] {
         if (!registry->m_named_registrations
@@ -114,6 +121,7 @@ template <bool NoneIsLeaf>
                 << PyRepr(registry_namespace) << ".";
             throw py::value_error(oss.str());
         }
+        int warn_result = 0;
         if (IsStructSequenceClass(cls)) [[unlikely]] {
             std::ostringstream oss{};
             oss << "PyTree type " << PyRepr(cls)
@@ -121,9 +129,9 @@ template <bool NoneIsLeaf>
                    "which is already registered in the global namespace. "
                    "Override it with custom flatten/unflatten functions in namespace "
                 << PyRepr(registry_namespace) << ".";
-            PyErr_WarnEx(PyExc_UserWarning,
-                         oss.str().c_str(),
-                         /*stack_level=*/2);
+            warn_result = PyErr_WarnEx(PyExc_UserWarning,
+                                       oss.str().c_str(),
+                                       /*stack_level=*/2);
         } else if (IsNamedTupleClass(cls)) [[unlikely]] {
             std::ostringstream oss{};
             oss << "PyTree type " << PyRepr(cls)
@@ -131,9 +139,14 @@ template <bool NoneIsLeaf>
                    "which is already registered in the global namespace. "
                    "Override it with custom flatten/unflatten functions in namespace "
                 << PyRepr(registry_namespace) << ".";
-            PyErr_WarnEx(PyExc_UserWarning,
-                         oss.str().c_str(),
-                         /*stack_level=*/2);
+            warn_result = PyErr_WarnEx(PyExc_UserWarning,
+                                       oss.str().c_str(),
+                                       /*stack_level=*/2);
+        }
+        if (warn_result < 0) [[unlikely]] {
+            // The warning was turned into an exception: undo the registration.
+            registry->m_named_registrations.erase(std::make_pair(registry_namespace, cls));
+            throw py::error_already_set();
         }
     }
 }
@@ -150,11 +163,17 @@ template <bool NoneIsLeaf>
                                unflatten_func,
                                path_entry_type,
                                registry_namespace);
-    RegisterImpl<NONE_IS_LEAF>(cls,
-                               flatten_func,
-                               unflatten_func,
-                               path_entry_type,
-                               registry_namespace);
+    try {
+        RegisterImpl<NONE_IS_LEAF>(cls,
+                                   flatten_func,
+                                   unflatten_func,
+                                   path_entry_type,
+                                   registry_namespace);
+    } catch (...) {
+        // Keep the two registries in sync: undo the first registration.
+        (void)UnregisterImpl<NONE_IS_NODE>(cls, registry_namespace);
+        std::rethrow_exception(std::current_exception());
+    }
     cls.inc_ref();
     flatten_func.inc_ref();
     unflatten_func.inc_ref();
